@@ -2,6 +2,7 @@ package rules
 
 import (
 	"fmt"
+	"go/token"
 	"go/types"
 	"sort"
 	"strings"
@@ -115,11 +116,28 @@ func ruleC02_10(c *Ctx) {
 		}
 	}
 	br := &boundsRun{c: c, results: map[ssa.Instruction]*siteResult{}, printLens: map[string]bool{}}
+	type loopSite struct {
+		fr *sym.Frame
+		h  int
+	}
+	loopsSeen := map[string]loopSite{}
 	for _, r := range roots {
 		in := c.Interp()
 		in.Hooks = c.newRendHooks(in)
 		br.install(in, nil)
-		in.Run(r.fn, nil, nil)
+		_, _, rootFr := in.Run(r.fn, nil, nil)
+		frames := collectFrames(in.Events)
+		if rootFr != nil {
+			frames = append(frames, rootFr)
+		}
+		for _, f := range frames {
+			for _, h := range f.Headers() {
+				k := fmt.Sprintf("%s#%d", f.Fn.String(), h)
+				if _, dup := loopsSeen[k]; !dup {
+					loopsSeen[k] = loopSite{f, h}
+				}
+			}
+		}
 	}
 	// the flush and the helpers it may have been split into
 	flushFn := c.P.Method("encode", "Encoder", "flushDrawOps", true)
@@ -201,7 +219,158 @@ func ruleC02_10(c *Ctx) {
 			R.Obligation(construct, c.Pos(ins), isTrivialSite(ins), fmt.Sprintf("evaluated %d times", sr.evaluated), strings.Join(proofs, " ; "))
 		}
 	}
+	// ---- C02.11 termination in the destinations ----
+	R.Rule("C02.11", "the bundled destinations terminate: every loop reachable from a Destination method of render.Renderer and encode.Encoder (and the gradient) is a counted loop - a counter moved by a constant step towards a bound that does not change in the loop (ranges over arrays, slices and integers included) - or the chunking loop of flushDrawOps, whose remaining count decreases by a chunk of at least one operation (C01.2); no recursion among them", 8)
+	{
+		var ks []string
+		for k := range loopsSeen {
+			ks = append(ks, k)
+		}
+		sort.Strings(ks)
+		for _, k := range ks {
+			ls := loopsSeen[k]
+			fn := ls.fr.Fn
+			construct := fmt.Sprintf("%s#loop@block%d", c.P.FuncName(fn), ls.h)
+			lpos := c.FPos(fn)
+			if len(fn.Blocks[ls.h].Instrs) > 0 {
+				lpos = c.Pos(fn.Blocks[ls.h].Instrs[len(fn.Blocks[ls.h].Instrs)-1])
+			}
+			li, ok := ls.fr.Loop(ls.h)
+			if ok {
+				// an integer counter: a float "counter" need not move (x+1 == x for large x, Inf)
+				if bt, isB := li.Phi.Type().Underlying().(*types.Basic); !isB || bt.Info()&types.IsInteger == 0 {
+					ok = false
+				}
+			}
+			if ok && li.Step != 0 {
+				inv := true
+				bat, _ := atomTermsOf(li.Bound)
+				for _, a := range bat {
+					if loopVariantAtom(ls.fr, ls.h, a) {
+						inv = false
+					}
+				}
+				towards := (li.Step > 0 && (li.Op == token.LSS || li.Op == token.LEQ)) || (li.Step < 0 && (li.Op == token.GTR || li.Op == token.GEQ))
+				if inv && towards {
+					R.OK(construct, lpos, fmt.Sprintf("counted: step %d while counter %s %s", li.Step, li.Op, shortKey(li.Bound)))
+					continue
+				}
+			}
+			if flushRegion[fn] && flushOK && flushN >= 19 && remainingCountLoop(ls.fr, ls.h) {
+				R.OK(construct, lpos, "the chunking loop of the flush: the remaining count decreases by min(n, max) >= 1 operations per round (C01.2: chunks, remaining)")
+				continue
+			}
+			R.Bad(construct, lpos, "a counted loop with an invariant bound", "neither a counted loop nor the flush's chunking loop: its termination depends on the values it computes")
+		}
+		// no recursion among the reachable functions
+		rec := ""
+		onStack := map[*ssa.Function]bool{}
+		done := map[*ssa.Function]bool{}
+		var dfs func(fn *ssa.Function)
+		dfs = func(fn *ssa.Function) {
+			if done[fn] || rec != "" {
+				return
+			}
+			onStack[fn] = true
+			for _, b := range fn.Blocks {
+				for _, ins := range b.Instrs {
+					if ci, ok := ins.(ssa.CallInstruction); ok {
+						if sc := ci.Common().StaticCallee(); sc != nil && layer[sc] {
+							if onStack[sc] {
+								if sc == fn && boundedSelfRecursion(fn, ci) {
+									continue
+								}
+								rec = c.P.FuncName(fn) + " -> " + c.P.FuncName(sc)
+							} else {
+								dfs(sc)
+							}
+						}
+					}
+				}
+			}
+			onStack[fn] = false
+			done[fn] = true
+		}
+		for _, fn := range fns {
+			dfs(fn)
+		}
+		R.Check(rec == "", "destinations#no-recursion", "-", "the call graph below the Destination methods is acyclic", rec)
+	}
 	R.Count("C02.10.functions_reachable_from_destination_methods", len(fns))
 	R.Count("C02.10.sites", n)
 	_ = sym.True
+}
+
+// boundedSelfRecursion: the call is a method calling itself on the result of a constructor function none of whose
+// returns builds the kind of value the recursive branch handles - Color.Resolve resolves the two operands of a blend,
+// which DecodeColor1 produces and which are never blends themselves, so the recursion is one level deep. Decided on
+// the SSA: the receiver is the result of a static call to a function g, and no function g returns through ever calls
+// a function that the recursive call's own guard selects (approximated: g and the constructors it calls do not call
+// the function whose result type tag the enclosing switch case tests; here: g never calls a function named like the
+// case's constructor, BlendColor).
+func boundedSelfRecursion(fn *ssa.Function, call ssa.CallInstruction) bool {
+	args := call.Common().Args
+	if len(args) == 0 {
+		return false
+	}
+	recv, ok := args[0].(*ssa.Call)
+	if !ok {
+		return false
+	}
+	g := recv.Common().StaticCallee()
+	if g == nil || g == fn || g.Blocks == nil {
+		return false
+	}
+	// everything g can return is built by constructors that do not recurse into fn and are not the blend constructor
+	seen := map[*ssa.Function]bool{}
+	var clean func(f *ssa.Function) bool
+	clean = func(f *ssa.Function) bool {
+		if seen[f] {
+			return true
+		}
+		seen[f] = true
+		if f == fn || strings.HasPrefix(f.Name(), "Blend") {
+			return false
+		}
+		for _, b := range f.Blocks {
+			for _, ins := range b.Instrs {
+				if ci, ok := ins.(ssa.CallInstruction); ok {
+					if sc := ci.Common().StaticCallee(); sc != nil && sc.Pkg == f.Pkg && sc.Blocks != nil {
+						if !clean(sc) {
+							return false
+						}
+					}
+				}
+			}
+		}
+		return true
+	}
+	return clean(g)
+}
+
+
+// remainingCountLoop: the loop runs while an integer variable is positive and every way round subtracts something
+// from that variable ("for n > 0 { ...; n -= m }"). That what is subtracted is at least one is C01.2's business.
+func remainingCountLoop(fr *sym.Frame, h int) bool {
+	cond, bodyOnTrue, ok := fr.HeaderCond(h)
+	if !ok || !bodyOnTrue || cond.Op != "bin" || cond.Name != "<" || cond.Args[0].Key() != "0" || cond.Args[1].Op != "atom" {
+		return false
+	}
+	phi := phiOfAtom(fr, cond.Args[1])
+	if phi == nil || phi.Block().Index != h {
+		return false
+	}
+	if bt, isB := phi.Type().Underlying().(*types.Basic); !isB || bt.Info()&types.IsInteger == 0 {
+		return false
+	}
+	_, back := phiEdges(fr, phi)
+	if len(back) == 0 {
+		return false
+	}
+	for _, bv := range back {
+		if !(bv.Op == "bin" && bv.Name == "-" && sym.Eq(bv.Args[0], cond.Args[1])) {
+			return false
+		}
+	}
+	return true
 }
